@@ -680,7 +680,7 @@ func main() {
 	add(heapCorpus(st, true))
 	add(heapCorpus(st, false))
 	// large next (their shards start early): up to 2000 keys
-	for i := 0; i < run.N(2, 40); i++ {
+	for i := 0; i < run.N(2, 12); i++ {
 		nk := 300 + rng.Intn(1701)
 		if i == 0 {
 			nk = 2000
@@ -692,11 +692,11 @@ func main() {
 		add(genCase(rng.Fork(), st, i%2 == 0, nk, nops, true))
 	}
 	// small key spaces: many collisions, deletes of present keys, empty treaps
-	for i := 0; i < run.N(70, 1500); i++ {
+	for i := 0; i < run.N(70, 600); i++ {
 		add(genCase(rng.Fork(), st, i%2 == 0, 1+rng.Intn(8), 10+rng.Intn(50), false))
 	}
 	// medium
-	for i := 0; i < run.N(24, 400); i++ {
+	for i := 0; i < run.N(24, 150); i++ {
 		add(genCase(rng.Fork(), st, i%2 == 0, 10+rng.Intn(90), 40+rng.Intn(160), false))
 	}
 	st.Sample(map[string]interface{}{"cases": id, "note": "see cases.jsonl for op sequences"})
